@@ -157,6 +157,8 @@ pub struct Model<'a> {
     /// an injected read fault has fired and no seek has succeeded since: the position is unspecified and nothing is demanded
     /// of what is delivered (the property speaks of the data after a seek)
     pub faulted: bool,
+    /// the previous operation was the read/fill that met the injected fault (only a seek issued right then is checked)
+    pub fresh_fault: bool,
 }
 
 #[derive(Clone)]
@@ -172,7 +174,7 @@ pub fn model_for<'a>(front: Front, file: &'a TestFile, refbytes: &'a [u8]) -> Mo
         Front::Sample => file.pcm.len() as u64,
         Front::Channel => (file.pcm.len() / file.sig.ch as usize) as u64,
     };
-    Model { file, refbytes, pos: Some(0), len, eof_seen: false, resynced: false, faulted: false }
+    Model { file, refbytes, pos: Some(0), len, eof_seen: false, resynced: false, faulted: false, fresh_fault: false }
 }
 
 type V = (String, String);
@@ -533,7 +535,7 @@ impl<'a, R: Read + Seek + Clone + SrcPos> Sys for ReaderSys<'a, R> {
                 (s.source.src_pos(), s.current_sample, s.frame_len, s.frame, s.buffered, s.consumed)
             }
         };
-        let mut k: Vec<i64> = vec![st.0 as i64, st.1 as i64, st.2 as i64, st.5 as i64, self.m.pos.map(|p| p as i64).unwrap_or(-1), self.m.eof_seen as i64 | (self.m.faulted as i64) << 1, st.3.len() as i64];
+        let mut k: Vec<i64> = vec![st.0 as i64, st.1 as i64, st.2 as i64, st.5 as i64, self.m.pos.map(|p| p as i64).unwrap_or(-1), self.m.eof_seen as i64 | (self.m.faulted as i64) << 1 | (self.m.fresh_fault as i64) << 2, st.3.len() as i64];
         k.extend(st.3.iter().map(|x| *x as i64));
         k.extend(st.4.iter().map(|x| *x as i64));
         k
@@ -543,6 +545,8 @@ impl<'a, R: Read + Seek + Clone + SrcPos> Sys for ReaderSys<'a, R> {
     }
     fn step(&mut self, op: &str) -> Result<String, V> {
         let fired_before = R::FAULTY && (self.key()[0] >> 62) & 1 == 1;
+        let (faulted_before, fresh_before) = (self.m.faulted, self.m.fresh_fault);
+        self.m.fresh_fault = false;
         let m = &mut self.m;
         let r = match &mut self.rd {
             Rd::ByteLE(r) => byte_step(r, m, op),
@@ -559,12 +563,19 @@ impl<'a, R: Read + Seek + Clone + SrcPos> Sys for ReaderSys<'a, R> {
                 self.m.pos = None;
                 self.m.resynced = false;
                 self.m.faulted = true;
+                self.m.fresh_fault = !matches!(op.split(':').next(), Some("seek" | "ss" | "sc" | "se"));
             }
             if let Err((c, _)) = &r {
                 if c == "read-error" || c == "in-range-seek-failed" {
                     return Ok("injected-fault-reported".into());
                 }
             }
+        }
+        if faulted_before && !fresh_before && !self.m.faulted {
+            // a seek succeeded, but operations without a requested position came between the fault and it: the reader's own
+            // notion of where it is was never re-established by the caller, so nothing is demanded for the rest of the history
+            self.m.pos = None;
+            self.m.faulted = true;
         }
         r
     }
